@@ -152,7 +152,7 @@ def Msg.fields : Msg → Decoded
   | .setValue seq pt _ _ pos len data => .pack (some seq) (some pt) false none true (some pos) (some (setValueData len data)) false
   | .packResponse => .pack none none false none false none none true
   | .wcRequest seq => .watercare (some seq) none false false
-  | .wcSet seq mode => .watercare (some seq) (some mode) false false   -- what a peer must learn; the library has no SETWC branch (D4)
+  | .wcSet seq mode => .watercare (some seq) (some mode) false false
   | .wcResponse mode => .watercare none (some mode) false true
   | .wcGiveSchedule => .watercare none none false true
   | .remindersRequest seq => .reminders (some seq) [] false
@@ -210,24 +210,12 @@ def Msg.inDomain : Msg → Bool
   | .remindersResponse rs => rs.all fun td => reminderTypeValues.contains td.1     -- GeckoReminderType values
   | _ => true
 
-def Msg.isWcSet : Msg → Bool
-  | .wcSet _ _ => true
-  | _ => false
-
 /-- messages whose verb is not tested by the `can_handle` of a handler class meant for them — computed from the verb
-lists the translator reads out of every `can_handle` (currently SETWC and WCREQ: finding D4) -/
+lists the translator reads out of every `can_handle` (none today: `C04.orphan_none`; before the fix of D4: SETWC, WCREQ) -/
 def Msg.orphan (m : Msg) : Bool :=
   match m.verb with
   | some v => m.handlers.any fun k => !k.claims.contains v
   | none => false
-
-/-- does the regex of the source need the "no `</DESCN><DATAS>` in the payload" hypothesis?  (true while one of the
-first two groups is greedy: finding D3) -/
-def regexNeedsCleanPayload : Bool := regexGreedy.1 || regexGreedy.2.1
-
-/-- does the hello decoder of the source need the "no `|` in the name" hypothesis?  (true while `split` has no
-`maxsplit`: finding D2) -/
-def helloNeedsCleanName : Bool := helloSplitMax.isNone
 
 /-- `lit` occurs in `s` as a contiguous substring -/
 def occurs (lit : Bytes) : Bytes → Bool
